@@ -131,4 +131,24 @@ KsCodeQuery(qk, idx, rank, self, nrefs) ==
                [prev |-> 0, n |-> 0, rep |-> <<>>], sorted)
       rep == IF fin.prev # 0 THEN (fin.prev :> fin.n) @@ fin.rep ELSE fin.rep
   IN [i \in 1..nrefs |-> IF i \in DOMAIN rep THEN rep[i] ELSE 0]
+
+---------------------------------------------------------------------------
+(* Part 4 - obikmermatch: which (query, reference) pairs must come out as exact.                       *)
+(* The alignment itself (scores, consensus of an inexact overlap) is not specified here.  What is: when *)
+(* the shorter of query and reference occurs EXACTLY, and only once (both strands counted), in the      *)
+(* longer one, the pair is reported over the whole length of the shorter one with identity 1, on the    *)
+(* strand of the occurrence.  where = "end": the occurrence is a prefix or a suffix of the longer        *)
+(* sequence (or the two are equal); "internal": both ends of the longer one overhang - the listed       *)
+(* deviation of the code (such a pair is reported with mismatches, or not at all).                      *)
+KsOccs(w, t) == {p \in 1..(Len(t) - Len(w) + 1) : SubSeq(t, p, p + Len(w) - 1) = w}
+
+KsExact(q, r) ==
+  LET sh == IF Len(q) <= Len(r) THEN q ELSE r
+      lg == IF Len(q) <= Len(r) THEN r ELSE q
+      fw == KsOccs(sh, lg)
+      rv == KsOccs(KmerRevCompSeq(sh), lg)
+  IN IF Len(sh) = 0 \/ Cardinality(fw) + Cardinality(rv) # 1 THEN [where |-> "none", rev |-> 0, len |-> 0]
+     ELSE LET p == CHOOSE x \in fw \cup rv : TRUE
+          IN [where |-> IF p = 1 \/ p = Len(lg) - Len(sh) + 1 THEN "end" ELSE "internal",
+              rev |-> IF fw = {} THEN 1 ELSE 0, len |-> Len(sh)]
 =============================================================================
